@@ -195,7 +195,7 @@ def check_case(case, st):
         m = monitor(case["keys"], wref)
         if m:
             out.append(("blocking-opt/" + m.split(":")[0].split("(")[0], {"scn": scn, "keys": case["keys"], "config": "blocking-opt", "choices": []}, m))
-        for cfg in H.CONFIGS[1:]:
+        for cfg in H.CONFIGS[1:] + (("entry-graphql", "entry-blocking") if not ov else ()):
             bad = 0
             for choices, obs, world in S.schedules(cfg, scn, st, free=free, bound=(b["early_bound"] - (1 if ("m4" in case["query"] or (st.tier == "thorough" and len(case["keys"]) >= 3)) else 0)), max_execs=(3000 if st.tier == "quick" else 50000)):
                 st.n("evaluations")
